@@ -1235,6 +1235,21 @@ example : (∀ se ∈ [({ maxRtx := 1 } : Msg.Sess)], SessOk se) ∧ SimF.RunInF
     SimF.tx0C 0 2 (Msg.run (Msg.init 0 [{}, {}]) cevs).out = 1 ∧
     pendC 0 2 (Msg.run (Msg.init 0 [{}, {}]) cevs).q.nodes = 1 := by decide
 
+open Coap.Sim Coap.Sched in
+/-- non-vacuity of `m_refines_timer_from`: the initial state with two sessions satisfies `GPar`, `FInv` and `RelF`; so does the
+state in the MIDDLE of the gated witness (message 2 waiting in the delay queue) with the S state reached so far -/
+example : GPar (parOf [{ maxRtx := 1 }]) ∧
+    FInv False (parOf [{ maxRtx := 1 }]) (fun _ _ _ => True) (Msg.run (Msg.init 0 [{ maxRtx := 1 }]) (gevs.take 3)) ∧
+    SimF.RelF (mxOf (parOf [{ maxRtx := 1 }])) (Msg.run (Msg.init 0 [{ maxRtx := 1 }]) (gevs.take 3))
+      (Timer.run (Timer.init 0) (SimF.trRun (Msg.init 0 [{ maxRtx := 1 }]) (gevs.take 3))) ∧
+    ((Msg.run (Msg.init 0 [{ maxRtx := 1 }]) (gevs.take 3)).getS 0).delayq.map (·.mid) = [2] ∧
+    SimF.RunInF (Msg.run (Msg.init 0 [{ maxRtx := 1 }]) (gevs.take 3)) (gevs.drop 3) := by
+  have hs : ∀ se ∈ [({ maxRtx := 1 } : Msg.Sess)], SessOk se := by decide
+  have hin : SimF.RunInF (Msg.init 0 [{ maxRtx := 1 }]) (gevs.take 3) := by decide
+  have h := m_refines_timer_from (parOf [{ maxRtx := 1 }]) (fun _ _ _ => True) (gpar_of _ hs) (gevs.take 3) _ (Timer.init 0)
+    (finv_init False _ 0 _ hs) (SimF.relF_init _ 0 _) hin (fun _ _ _ _ => trivial)
+  exact ⟨gpar_of _ hs, h.1, h.2.1, by decide, by decide⟩
+
 /-- witness for the order remark: ONE session, NSTART 1; message id 5 is submitted, retransmitted at 2000 (next deadline 6000),
 submitted AGAIN while the first use is in flight (held by NSTART), and an RST for id 5 arrives at 2500 -/
 def oevs : List Msg.Ev :=
@@ -1820,6 +1835,16 @@ theorem obs_io_wait_le_every_deadline_sorted (st : State) (ncli : Nat)
       (tickWait (io st).1 ncli < 4294967296 → waitOf (io st).1 ncli = tickWait (io st).1 ncli) :=
   let hio := obs_io_nothing_due st hsorted
   obs_io_wait_le_every_deadline_partial st ncli hio.1 hio.2.2
+
+open Coap.Observe in
+/-- non-vacuity of `obs_io_wait_le_every_deadline_sorted` / `obs_io_nothing_due` / `obs_queue_sorted_step`: a state whose queue
+is in deadline order but LATE — both entries overdue by 1000 ticks: the call retransmits both (fuel 3 for 2 due nodes), leaves
+[8500, 8500] and returns 4000 -/
+example : let st0 := (Coap.Observe.run (init [mkRes 0 true false 0, mkRes 1 true false 0] 30000)
+      [.reg 0 0 1 0 true 1, .reg 1 1 2 0 true 1, .chg 0, .chg 1, .adv 500]).1
+    let st : State := { st0 with now := 4500 }
+    st.sendq.map (·.due) = [3500, 3500] ∧ st.sendq.Pairwise (fun a b => a.due ≤ b.due) ∧
+    (io st).1.sendq.map (·.due) = [8500, 8500] ∧ waitOf (io st).1 2 = 4000 := by decide
 
 open Coap.Observe Coap.ObsWait in
 /-- **obs_io_wait_le_every_deadline** (FULL — `obs_io_wait_le_every_deadline_partial` without its two hypotheses): after EVERY
